@@ -10,6 +10,7 @@ import (
 	"errors"
 	"fmt"
 	"runtime"
+	"sort"
 	"strconv"
 	"strings"
 	"sync"
@@ -94,6 +95,28 @@ type LN struct {
 	// Forged: BOLT11 strings made by ForgeInvoice -> msat
 	Forged          map[string]uint64
 	lastPartialMsat uint64
+	// KeepRes: record per calling goroutine what each backend call answered (E1's state key)
+	KeepRes bool
+	Res     map[int64][]string
+}
+
+// rec must be called with l.mu held.
+func (l *LN) rec(method, hash, answer string) {
+	if !l.KeepRes {
+		return
+	}
+	if l.Res == nil {
+		l.Res = map[int64][]string{}
+	}
+	g := gid()
+	l.Res[g] = append(l.Res[g], method+"|"+hash+"|"+answer)
+}
+
+// ResultsOf returns the recorded answers given to goroutine g.
+func (l *LN) ResultsOf(g int64) []string {
+	l.mu.Lock()
+	defer l.mu.Unlock()
+	return append([]string(nil), l.Res[g]...)
 }
 
 func New() *LN {
@@ -317,6 +340,36 @@ func (l *LN) Snapshot() string {
 	return s
 }
 
+// StateKey renders the whole ledger (invoices, subscriptions, payments, unconsumed answer scripts) with payment hashes
+// renamed by the caller: the backend's part of E1's state key.
+func (l *LN) StateKey(rename func(string) string) string {
+	l.mu.Lock()
+	defer l.mu.Unlock()
+	var parts []string
+	for h, inv := range l.Invoices {
+		subs := ""
+		for _, s := range inv.subs {
+			subs += fmt.Sprintf("[%v%v%v]", s.delivered, s.done, s.ctx.Err() != nil)
+		}
+		parts = append(parts, fmt.Sprintf("inv %s %d %v %s", rename(h), inv.AmountMsat, inv.Settled, subs))
+	}
+	for h, p := range l.Payments {
+		parts = append(parts, fmt.Sprintf("pay %s %d %d %v %d %v %v", rename(h), p.AmountMsat, p.FeeLimit, p.Status, p.Attempts, p.PayAnswer, p.Partial))
+	}
+	for h, sc := range l.PayScript {
+		if len(sc) > 0 {
+			parts = append(parts, fmt.Sprintf("ps %s %v", rename(h), sc))
+		}
+	}
+	for h, sc := range l.StatusScript {
+		if len(sc) > 0 {
+			parts = append(parts, fmt.Sprintf("ss %s %v", rename(h), sc))
+		}
+	}
+	sort.Strings(parts)
+	return strings.Join(parts, ";")
+}
+
 // Client returns the lightning.Client facade used by the mint called name.
 func (l *LN) Client(name string) *Client { return &Client{l: l, name: name} }
 
@@ -354,8 +407,10 @@ func (c *Client) InvoiceStatus(hash string) (lightning.Invoice, error) {
 	}
 	inv := c.l.Invoices[hash]
 	if inv == nil {
+		c.l.rec("InvoiceStatus", hash, "unknown")
 		return lightning.Invoice{}, errors.New("invoice not found")
 	}
+	c.l.rec("InvoiceStatus", hash, fmt.Sprint(inv.Settled))
 	out := lightning.Invoice{PaymentRequest: inv.Request, PaymentHash: inv.Hash, Settled: inv.Settled, Amount: inv.Amount, Expiry: lightning.InvoiceExpiryTime}
 	// a backend reveals the preimage of its own invoices
 	out.Preimage = inv.Preimage
@@ -388,6 +443,7 @@ func (c *Client) pay(method, request string, amountSat, maxFee uint64, partial b
 	if _, forged := c.l.Forged[request]; forged {
 		// the payee of a forged invoice is a throw-away key nobody routes to: the payment can only fail
 		c.l.Calls = append(c.l.Calls, Call{G: gid(), Mint: c.name, Method: method, Hash: hash, Amount: amountSat, FeeLimit: maxFee, Answer: "Failed"})
+		c.l.rec(method, hash, "Failed(forged)")
 		if q := c.l.Payments[hash]; q == nil {
 			c.l.Payments[hash] = &Payment{Hash: hash, Payer: c.name, Status: Failed, Attempts: 1, PayAnswer: Failed}
 		}
@@ -401,11 +457,13 @@ func (c *Client) pay(method, request string, amountSat, maxFee uint64, partial b
 	if p.Status == Succeeded && p.Attempts > 0 {
 		// paying an already paid invoice again: a real node refuses; keep the ledger, answer Failed.
 		c.l.Calls = append(c.l.Calls, Call{G: gid(), Mint: c.name, Method: method, Hash: hash, Amount: amountSat, FeeLimit: maxFee, Answer: "AlreadyPaid"})
+		c.l.rec(method, hash, "AlreadyPaid")
 		return lightning.PaymentStatus{PaymentStatus: lightning.Failed, PaymentFailureReason: "already paid"}, nil
 	}
 	p.Attempts++
 	p.Amount, p.AmountMsat, p.FeeLimit, p.PayAnswer = amountSat, amountMsat, maxFee, ans
 	c.l.Calls = append(c.l.Calls, Call{G: gid(), Mint: c.name, Method: method, Hash: hash, Amount: amountSat, FeeLimit: maxFee, Answer: ans.String()})
+	c.l.rec(method, hash, ans.String())
 	inv := c.l.Invoices[hash]
 	pre := "00"
 	if inv != nil {
@@ -457,6 +515,7 @@ func (c *Client) OutgoingPaymentStatus(ctx context.Context, hash string) (lightn
 		ans = p.Status
 	}
 	c.l.Calls = append(c.l.Calls, Call{Mint: c.name, Method: "OutgoingPaymentStatus", Hash: hash, Answer: ans.String()})
+	c.l.rec("OutgoingPaymentStatus", hash, ans.String())
 	inv := c.l.Invoices[hash]
 	pre := "00"
 	if inv != nil {
